@@ -226,6 +226,7 @@ typedef struct {
 	uint64_t accesses;
 	int is_victim;
 	const char *stall_func; int stall_op, stall_phase; uint64_t stall_max_ns;
+	const char *stall2_func; int stall2_op, stall2_phase; uint64_t stall2_max_ns;
 } vf_tls_t;
 static __thread vf_tls_t tl;
 
@@ -236,7 +237,10 @@ static _Atomic int g_victim_tid;
 
 static _Atomic int g_stall_reached, g_stall_release;
 void vf_stall_arm(const char *func, int op, int phase, uint64_t max_ns);
-void vf_stall_reset(void) { atomic_store(&g_stall_reached, 0); atomic_store(&g_stall_release, 0); }
+static _Atomic int g_stall2_reached, g_stall2_release;
+void vf_stall_reset(void) { atomic_store(&g_stall_reached, 0); atomic_store(&g_stall_release, 0); atomic_store(&g_stall2_reached, 0); atomic_store(&g_stall2_release, 0); }
+bool vf_stall2_reached(void) { return atomic_load(&g_stall2_reached) != 0; }
+void vf_stall2_release(void) { atomic_store(&g_stall2_release, 1); }
 bool vf_stall_reached(void) { return atomic_load(&g_stall_reached) != 0; }
 void vf_stall_release(void) { atomic_store(&g_stall_release, 1); }
 
@@ -311,6 +315,15 @@ static void vf_atomic_hook(int phase, int op, const volatile void *addr,
 			nanosleep(&ts, NULL);
 		}
 	}
+	if (tl.stall2_func && phase == tl.stall2_phase && op == tl.stall2_op && !strcmp(func, tl.stall2_func)) {
+		uint64_t t0 = vf_now_ns(CLOCK_MONOTONIC), max_ns = tl.stall2_max_ns;
+		tl.stall2_func = NULL;
+		atomic_store(&g_stall2_reached, 1);
+		while (!atomic_load(&g_stall2_release) && vf_now_ns(CLOCK_MONOTONIC) - t0 < max_ns) {
+			struct timespec ts = { 0, 50000 };
+			nanosleep(&ts, NULL);
+		}
+	}
 	vf_site_t *s = NULL;
 	if (phase == 0) {
 		s = site_lookup(func, line, op);
@@ -364,7 +377,12 @@ void vf_stall_arm(const char *func, int op, int phase, uint64_t max_ns)
 	tl.stall_op = op; tl.stall_phase = phase; tl.stall_max_ns = max_ns;
 	tl.stall_func = func;
 }
-void vf_stall_disarm(void) { tl.stall_func = NULL; }
+void vf_stall_disarm(void) { tl.stall_func = NULL; tl.stall2_func = NULL; }
+void vf_stall2_arm(const char *func, int op, int phase, uint64_t max_ns)
+{
+	tl.stall2_op = op; tl.stall2_phase = phase; tl.stall2_max_ns = max_ns;
+	tl.stall2_func = func;
+}
 
 void vf_perturb_i_am_victim(void) { tl.is_victim = 1; }
 uint64_t vf_perturb_injected(void) { return atomic_load(&g_injected); }
